@@ -60,7 +60,7 @@ def verify(prop, v):
         shutil.copy(out / f"demo_{v}.py", d / "demo.py")
         meta = {}
         try:
-            m = json.loads((out / ("meta.json" if v in "AB" else "meta2.json" if v in "CD" else "meta3.json")).read_text())
+            m = json.loads((out / ("meta.json" if v in "AB" else "meta2.json" if v in "CD" else "meta3.json" if v in "EF" else "meta4.json")).read_text())
             for ch in m.get("changes", []):
                 if ch.get("name") == v:
                     meta = ch
@@ -92,7 +92,7 @@ def todo(results):
     items = []
     for i in range(1, 21):
         prop = f"C{i:02d}"
-        for v in ("A", "B", "C", "D", "E", "F"):
+        for v in ("A", "B", "C", "D", "E", "F", "G", "J"):
             key = f"{prop}_{v}"
             if not Path(f"/tmp/s/{prop}_out/patch_{v}.diff").exists() and not (SEEDED / key / "patch.diff").exists():
                 continue
